@@ -1,7 +1,7 @@
 (* Property C10: Hall of fame / Pareto front hold exactly the best / non-dominated seen.
    Statements only; every proof is [exact <lemma>] from Proofs/HofProofs.v. *)
 From Coq Require Import ZArith List Bool Permutation Sorted.
-From Bingo Require Import Lib.ListExtra Model.Hof Proofs.HofProofs.
+From Bingo Require Import Lib.ListExtra Lib.Key Model.Hof Gen.ParetoRule Proofs.HofProofs Proofs.ParetoRuleProofs.
 Import ListNotations.
 
 (* 1. bounded hall, update calls only, no similarity filter, capacity >= 1 *)
@@ -66,6 +66,13 @@ Theorem C10_capacity_zero_stays_empty :
   let h := run sim false (Some 0%nat) base ops in err h = false /\ keys h = [] /\ items h = [].
 Proof. exact C10_capacity_zero. Qed.
 Print Assumptions C10_capacity_zero_stays_empty.
+
+(* the tie by translation: the model's dominance test IS the test the current source states
+   (Gen/ParetoRule.v is regenerated from bingo/stats/pareto_front.py on every run by tools/translate/tr_pareto.py) *)
+Theorem C10_model_dominance_test_is_the_source_test :
+  forall a1 a2 b1 b2, first_dominates a1 a2 b1 b2 = gen_first_dominates a1 a2 b1 b2.
+Proof. exact first_dominates_is_source. Qed.
+Print Assumptions C10_model_dominance_test_is_the_source_test.
 
 (* the histories that used to refute the two clauses *)
 Example C10_former_refutations :
